@@ -580,6 +580,17 @@ def _boolnum(x, y):
         return False
 
 
+def _bool_saturated(a, b):
+    """token tuples equal up to numeric widening, or a bool next to a count with the same truth value (True vs 2)"""
+    def sat(x, y):
+        try:
+            vx, vy = untok(x), untok(y)
+        except Exception:
+            return False
+        return (x.startswith('b:') and bool(vy) == vx) or (y.startswith('b:') and bool(vx) == vy)
+    return len(a) == len(b) and all(_num_equal_tokens((x,), (y,)) or sat(x, y) for x, y in zip(a, b))
+
+
 def classify_layout_difference(case, ra, rb):
     """Map a two-layout difference to a recorded finding id (findings/C03.json) or None."""
     name, args = case['op'], case['args']
@@ -617,6 +628,9 @@ def classify_layout_difference(case, ra, rb):
         fn, skipna = args[0], args[2]
         if ra[0] == rb[0] == 'ok' and ra[1][0] == rb[1][0] == 'Series' and ra[1][1] == rb[1][1] and _num_equal_tokens(ra[1][2], rb[1][2]):
             return 'F18'  # same values, result dtype depends on layout
+        if fn == 'sum' and ra[0] == rb[0] == 'ok' and ra[1][0] == rb[1][0] == 'Series' and ra[1][1] == rb[1][1] \
+                and any(c['dt'] == 'bool' for c in case['spec']['cols']) and _bool_saturated(ra[1][2], rb[1][2]):
+            return 'F18'  # a bool column summed as its own block stays bool (True for any count >= 1); consolidated it is counted in int64
         if ra[0] == rb[0] == 'err':
             return 'F17'  # error class depends on layout (ValueError vs TypeError)
         if fn in ('sum', 'cumsum') and ra[0] == rb[0] == 'ok' and any(c['dt'] == 'str' for c in case['spec']['cols']):
